@@ -66,6 +66,116 @@ CHECKS = {
         note="Hierarchies are trees (no multiple-inheritance DAGs); creating classes is global state, so "
              "each hierarchy lives under a fresh private root.",
         design="3/C08"),
+    "C09": dict(
+        level="exploration", engine="L-lattice",
+        technique="bounded-exhaustive lattice of tool x computer x pre x post x config syntax x container "
+                  "x utterance set; both console tools run in-process against a NumPy reference pipeline",
+        text="Every point of the Cartesian lattice runs the real tool and compares every stored matrix "
+             "(ids present, nothing else, allclose rtol 1e-5 in float32) with read_signal -> channel pick -> "
+             "pre-processors in order -> compute_full (or raw column) -> post-processors in order; config "
+             "syntaxes must agree and a fixed --seed must be reproducible (dither).",
+        note="Order of the torch tool's two Preemphasize filters is unobservable (they commute); signal "
+             "lengths L//2+1 <= N < L are outside the torch tool's claimed domain (C14).",
+        design="3/C09"),
+    "C10": dict(
+        level="fault_enumeration", engine="F-fault",
+        technique="crash-point enumeration on the real process: strace syscall fault injection kills the "
+                  "CLI at every state-changing syscall on the output paths (SIGKILL and SIGINT), then resume",
+        text="The real console script is killed at EVERY state-changing syscall (openat/mkdir/write/writev/"
+             "close) touching the output directory, a feature file or the manifest, with SIGKILL and SIGINT; "
+             "after each kill invariants I1 (manifest lists only complete loadable files) and I2 (lists every "
+             "completed utterance but the one in flight) are checked, the command is re-run and I3 (directory "
+             "identical to an uninterrupted run incl. dither under --seed) and I4 (listed files not rewritten) "
+             "are checked; thorough adds second-order kills. Worker counts 0..3 compared; the dataset "
+             "mechanism is driven for every assignment/order of <=4 items over <=3 simulated workers.",
+        note="Process kills at syscall granularity (page cache survives); OS scheduling of DataLoader "
+             "workers is sampled, the repository-side seeding mechanism is enumerated (DESIGN 4).",
+        design="3/C10"),
+    "C11": dict(
+        level="exploration", engine="L-lattice",
+        technique="bounded-exhaustive lattice container x shape x dtype x access path x cast x key, plus "
+                  "exhaustive garbage enumeration (all 1-byte strings, 2-byte strings over 16 symbols, every "
+                  "prefix and byte substitution of small valid files) for wds_read_signal in child processes",
+        text="Every container is written with its own writer and read back from a path and from a stream "
+             "(array_equal, dtype, shape); the error lattice (no suffix, stream without force_as, unknown "
+             "force_as); wds_read_signal must return None or an ndarray and never raise, hang or crash on "
+             "every enumerated byte string under every key suffix.",
+        note="wave, soundfile, numpy, torch, h5py writers trusted; short-read streams (pipes) not modelled.",
+        design="3/C11"),
+    "C12": dict(
+        level="exploration", engine="L-lattice",
+        technique="bounded-exhaustive lattice coding x channels 1..7 x sample counts around multiples of the "
+                  "16 KiB read x header layout x dtype with an independent SPHERE writer; all 256 G.711 "
+                  "codes; every truncation length; every header prefix",
+        text="Files produced by an independent writer decode to exactly the stored samples and shape for "
+             "every lattice point (both sides of every read boundary, frame sizes that do not divide 16384); "
+             "both G.711 tables equal an independent ITU-T expansion on all 256 codes; every byte length of a "
+             "truncated data section yields a warning and exactly the whole samples present; header faults "
+             "raise IOError.",
+        note="The independent G.711 expansion and SPHERE writer are cross-checked against libsndfile in "
+             "their selftests.",
+        design="3/C12"),
+    "C13": dict(
+        level="model_checking", engine="M-model-replay",
+        technique="format state machine explored on a Python model (all command sequences to depth 3-4, BFS "
+                  "over merged model states to depth 8); every model trace is serialised by an independent "
+                  "encoder and replayed through the real decoder",
+        text="Every command sequence over a 14-command alphabet x 24 header combinations (depth 3) and core "
+             "headers (depth 4), plus a BFS over the model's states (bit cursor, channel, block size, shift, "
+             "provenance of history/mean slots), is encoded by an independent encoder and decoded by the real "
+             "decoder, which must return exactly the target samples; the model decoder is itself validated "
+             "on the six sph2pipe vectors; every truncation that cuts a command, undefined command codes and "
+             "versions must raise IOError; long streams exercise the bit reader's refill.",
+        note="Sample values: fixed generic sequence plus extremes; validity policy of generated streams as "
+             "listed in the module's ASSUMPTIONS; merged BFS keyed without sample values (unmerged depth-4 "
+             "sequences and the fine-keyed thorough BFS cover what merging could hide).",
+        design="3/C13"),
+    "C14": dict(
+        level="exploration", engine="L-lattice",
+        technique="bounded-exhaustive lattice (C02 lattice x precision x lengths from 0) comparing every "
+                  "PyTorch module with its NumPy counterpart; TorchScript script/trace vs eager",
+        text="PyTorchSTFTFrameComputer.from_stft_frame_computer(c)(x) vs c.compute_full(x) on every point "
+             "(4 bank kinds x L 2..12 x S x pad x 3 styles x windows x energy/log/power x N in {0,1,L//2,L,"
+             "L+1,2L+1,3L+S} x float32/float64), shapes incl. empty column count; wrappers (Preemphasize, "
+             "PostProcessorWrapper, SI computer, Dither algebra and fixed-seed moments); scripted and traced "
+             "modules equal eager.",
+        note="Lengths L//2+1 <= N < L are outside the property's claim and the lattice; the torch "
+             "constructor's documented refusal of empty filters (DFT size 2 Fbank) is skipped and counted.",
+        design="3/C14"),
+    "C15": dict(
+        level="exploration", engine="L-lattice",
+        technique="bounded-exhaustive lattice of shapes <=3-D x dtype x axis x target_axis x concatenate x "
+                  "num_deltas x context window x pad mode (Deltas) and num_vectors x axes x pad mode (Stack) "
+                  "against an explicit-loop reference",
+        text="Every lattice point is compared (exact shape and dtype, values to 1e-12, ints exact up to the "
+             "documented truncation) with the Kaldi recursion written with explicit loops and explicit edge "
+             "extension; 2-D fast path vs N-D path; input unchanged unless in_place.",
+        note="Callable pad modes are not enumerated; an empty filtered axis only with num_deltas=0.",
+        design="3/C15"),
+    "C16": dict(
+        level="model_checking", engine="E-explicit-state",
+        technique="explicit-state BFS over all accumulate histories of a data set (every non-empty subset of "
+                  "the remaining vectors, in every presentation) on the real Standardize, merged by the "
+                  "statistics matrix; plus a lattice for local standardisation",
+        text="All ordered set-partitions of an integer-valued data set (n<=5 quick, up to 8 thorough) into "
+             "accumulate calls (vector / 2-D along either axis / 3-D) are explored; the reachable states are "
+             "exactly the 2^n subsets (additivity holds bit-exactly) and in every state apply equals the "
+             "independently computed (x-mean)/std; local standardisation, ValueError on dimension mismatch, "
+             "float64 result and in_place on a lattice.",
+        note="Integer-valued data so that accumulation order cannot change a bit; real-valued data on the "
+             "lattice part with rtol 1e-10.",
+        design="3/C16"),
+    "C17": dict(
+        level="model_checking", engine="E-explicit-state",
+        technique="explicit-state BFS over save/accumulate histories to depth 3 (thorough 4) on shared paths; "
+                  "state = statistics + decoded directory contents; reload oracle after every save",
+        text="Histories over accumulate(D+ | D- | float32) and save(path in {a.npy,a.npz,a.bin,b.npz}, key, "
+             "compress, overwrite) are explored on the real Standardize in a scratch directory; after every "
+             "save the statistics are reloaded (array_equal apply), the npz archive must contain exactly what "
+             "the docstring promises for the overwrite flag, saving onto any existing file must succeed, and "
+             "saving without statistics must raise ValueError.",
+        note="Garbage content at a target path is not in the alphabet; compression is observed, not judged.",
+        design="3/C17"),
     "C18": dict(
         level="exploration", engine="L-lattice",
         technique="bounded-exhaustive lattice (length x dtype x coefficient x in_place x memory layout x "
